@@ -250,7 +250,7 @@ func zzService(captures []zzCapture) *Manager {
 func zzSettle(mgr *Manager) {
 	rounds := 150
 	if !zz.Symbolic() {
-		rounds = 3000 // natively: up to 6 s of wall time on a loaded machine
+		rounds = 10000 // natively: up to 20 s of wall time on a loaded machine
 	}
 	for round := 0; round < rounds; round++ {
 		st := mgr.Status()
@@ -269,7 +269,7 @@ func zzSettle(mgr *Manager) {
 func zzWaitImports(mgr *Manager) {
 	rounds := 400
 	if !zz.Symbolic() {
-		rounds = 3000
+		rounds = 10000
 	}
 	for round := 0; round < rounds; round++ {
 		if mgr.Status().ImportJobCount == 0 {
